@@ -221,7 +221,7 @@ impl Write for BaseStream {
     }
 }
 
-fn read_timeout(stream: &mut impl Read, buf: &mut [u8], timeout: &Option<mpsc::Sender<()>>) -> io::Result<usize> {
+fn read_timeout(stream: &mut impl Read, buf: &mut [u8], timeout: &mut Option<mpsc::Sender<()>>) -> io::Result<usize> {
     match stream.read(buf) {
         Ok(0) => {
             #[cfg(unix)]
@@ -230,6 +230,12 @@ fn read_timeout(stream: &mut impl Read, buf: &mut [u8], timeout: &Option<mpsc::S
                 if !buf.is_empty() && timeout.send(()).is_err() {
                     return Err(io::ErrorKind::TimedOut.into());
                 }
+            }
+            #[cfg(unix)]
+            if !buf.is_empty() {
+                // This is a real end of stream: the timeout thread has been told and goes away,
+                // later reads must not take its absence for an expired deadline.
+                *timeout = None;
             }
             Ok(0)
         }
